@@ -62,6 +62,9 @@ LAYERED_SOILS = {
                 "texture_layers": [[0.6, 40, 20, 2.5, 100], [0.6, 20, 40, 1.5, 100]]},
     "restrictive": {"type": "custom", "kw": {"dz": [0.1] * 12},
                     "layers": [[0.5, 0.12, 0.26, 0.43, 800.0, 100], [0.7, 0.25, 0.40, 0.50, 60.0, 40]]},
+    # permeable top over an impeding subsoil on a non-uniform grid (back-up of drainage across compartments of different thickness)
+    "impeding_uneven": {"type": "custom", "kw": {"dz": [0.05, 0.05, 0.1, 0.1, 0.2, 0.2, 0.3, 0.3]},
+                        "layers": [[0.3, 0.06, 0.13, 0.36, 1500.0, 100], [1.0, 0.39, 0.54, 0.55, 2.0, 100]]},
     "uneven_dz": {"type": "custom", "kw": {"dz": [0.05, 0.05, 0.1, 0.1, 0.15, 0.15, 0.2, 0.2, 0.2, 0.2]},
                   "layers": [[1.4, 0.15, 0.31, 0.46, 500.0, 100]]},
 }
